@@ -15,11 +15,16 @@ package main
 //                          interceptor claims, the ordered calls of Wrap*/buildContext/authenticate,
 //                          the interceptors installed in server.go and whether every service
 //                          handler is registered with them.
+//  (iv)  auth webhook      server/rpc/auth/webhook.go: the expression `generateCacheKey` returns (format
+//                          string and arguments of its single `fmt.Sprintf`), its parameters, the arguments
+//                          at its call sites, and the ordered calls of `verifyAccess` with their arguments
+//                          (which key the verdict cache is read / written under, whose URL is called).
 
 import (
 	"fmt"
 	"go/ast"
 	"go/parser"
+	"go/printer"
 	"go/token"
 	"os"
 	"path/filepath"
@@ -547,6 +552,141 @@ func genRpc(repo string) (string, error) {
 		}
 		fmt.Fprintf(&sb, "(%s, %s)", leanStr(r.ctor), leanBool(r.opts))
 	}
-	sb.WriteString("]\n\nend Yorkie.Generated.Rpc\n")
+	sb.WriteString("]\n\n")
+	if err := genAuthWebhook(repo, &sb); err != nil {
+		return "", err
+	}
+	sb.WriteString("end Yorkie.Generated.Rpc\n")
 	return sb.String(), nil
+}
+
+// render prints an expression as source text.
+func render(fset *token.FileSet, e ast.Node) string {
+	var sb strings.Builder
+	if err := printer.Fprint(&sb, fset, e); err != nil {
+		return "<unprintable>"
+	}
+	return strings.Join(strings.Fields(sb.String()), " ")
+}
+
+// genAuthWebhook: (iv) the verdict cache of the auth webhook.
+func genAuthWebhook(repo string, sb *strings.Builder) error {
+	fset := token.NewFileSet()
+	file := "server/rpc/auth/webhook.go"
+	f, err := parser.ParseFile(fset, filepath.Join(repo, file), nil, 0)
+	if err != nil {
+		return err
+	}
+	q := func(l []string) string {
+		var o []string
+		for _, s := range l {
+			o = append(o, leanStr(s))
+		}
+		return "[" + strings.Join(o, ", ") + "]"
+	}
+	format, stmts := "<generateCacheKey not found>", 0
+	var args, params []string
+	var callSites [][]string
+	type vcall struct {
+		name string
+		args []string
+	}
+	var flow []vcall
+	var assigns [][2]string // in verifyAccess: lhs := rhs for single-ident lhs
+	for _, d := range f.Decls {
+		fd, ok := d.(*ast.FuncDecl)
+		if !ok || fd.Body == nil {
+			continue
+		}
+		if fd.Name.Name == "generateCacheKey" {
+			params = paramNames(fd)
+			stmts = len(fd.Body.List)
+			format = "<not a single return of fmt.Sprintf>"
+			if len(fd.Body.List) == 1 {
+				if rs, ok := fd.Body.List[0].(*ast.ReturnStmt); ok && len(rs.Results) == 1 {
+					if ce, ok := rs.Results[0].(*ast.CallExpr); ok && exprName(ce.Fun) == "fmt.Sprintf" && len(ce.Args) >= 1 {
+						if bl, ok := ce.Args[0].(*ast.BasicLit); ok && bl.Kind == token.STRING {
+							format, _ = strconv.Unquote(bl.Value)
+							for _, a := range ce.Args[1:] {
+								args = append(args, render(fset, a))
+							}
+						}
+					}
+				}
+			}
+			if format == "<not a single return of fmt.Sprintf>" {
+				// still say what the last return mentions, so that the failing obligation is readable
+				ast.Inspect(fd.Body, func(n ast.Node) bool {
+					if rs, ok := n.(*ast.ReturnStmt); ok && len(rs.Results) == 1 {
+						args = []string{render(fset, rs.Results[0])}
+					}
+					return true
+				})
+			}
+		}
+		ast.Inspect(fd.Body, func(n ast.Node) bool {
+			switch x := n.(type) {
+			case *ast.CallExpr:
+				if exprName(x.Fun) == "generateCacheKey" {
+					var as []string
+					for _, a := range x.Args {
+						as = append(as, render(fset, a))
+					}
+					callSites = append(callSites, as)
+				}
+				if fd.Name.Name == "verifyAccess" {
+					if nm := exprName(x.Fun); nm != "" && nm != "fmt.Errorf" {
+						var as []string
+						for _, a := range x.Args {
+							as = append(as, render(fset, a))
+						}
+						flow = append(flow, vcall{nm, as})
+					}
+				}
+			case *ast.AssignStmt:
+				if fd.Name.Name == "verifyAccess" && len(x.Lhs) >= 1 && len(x.Rhs) == 1 {
+					if id, ok := x.Lhs[0].(*ast.Ident); ok {
+						assigns = append(assigns, [2]string{id.Name, render(fset, x.Rhs[0])})
+					}
+				}
+			}
+			return true
+		})
+	}
+	sb.WriteString("/-- `generateCacheKey` (server/rpc/auth/webhook.go): format string of its single `return fmt.Sprintf(…)` -/\n")
+	fmt.Fprintf(sb, "def authCacheKeyFormat : String := %s\n\n", leanStr(format))
+	sb.WriteString("/-- … the arguments of that `Sprintf` (source text) -/\n")
+	fmt.Fprintf(sb, "def authCacheKeyArgs : List String := %s\n\n", q(args))
+	sb.WriteString("/-- … the parameters of `generateCacheKey` and the number of statements of its body -/\n")
+	fmt.Fprintf(sb, "def authCacheKeyParams : List String := %s\n\n", q(params))
+	fmt.Fprintf(sb, "def authCacheKeyBodyStmts : Nat := %d\n\n", stmts)
+	sb.WriteString("/-- arguments at every call site of `generateCacheKey` -/\n")
+	sb.WriteString("def authCacheKeyCallSites : List (List String) := [")
+	for i, c := range callSites {
+		if i > 0 {
+			sb.WriteString(", ")
+		}
+		sb.WriteString(q(c))
+	}
+	sb.WriteString("]\n\n")
+	sb.WriteString("/-- ordered calls of `verifyAccess` with their arguments (source text) -/\n")
+	sb.WriteString("def authVerifyFlow : List (String × List String) := [\n")
+	for i, c := range flow {
+		sep := ","
+		if i == len(flow)-1 {
+			sep = ""
+		}
+		fmt.Fprintf(sb, "  (%s, %s)%s\n", leanStr(c.name), q(c.args), sep)
+	}
+	sb.WriteString("]\n\n")
+	sb.WriteString("/-- single-identifier assignments of `verifyAccess`: (variable, right-hand side) -/\n")
+	sb.WriteString("def authVerifyAssigns : List (String × String) := [")
+	for i, a := range assigns {
+		if i > 0 {
+			sb.WriteString(", ")
+		}
+		fmt.Fprintf(sb, "(%s, %s)", leanStr(a[0]), leanStr(a[1]))
+	}
+	sb.WriteString("]\n\n")
+	return nil
 }
